@@ -314,3 +314,13 @@ class SympyCondition(Condition):
                 # Measurements get prepended with "m_", so the condition needs to be too.
                 return f'm_{self.expr.lhs}=={self.expr.rhs}'
         raise ValueError('QASM is defined only for SympyConditions of type key == constant.')
+
+    def _qasm_(self, args: cirq.QasmArgs, **kwargs) -> str | None:
+        if isinstance(self.expr, sympy.Equality):
+            if isinstance(self.expr.lhs, sympy.Symbol) and isinstance(self.expr.rhs, sympy.Integer):
+                # Use the register the exporter declared for this key (keys that are not valid
+                # QASM identifiers are renamed there).
+                key_id = args.meas_key_id_map.get(str(self.expr.lhs))
+                if key_id is not None:
+                    return f'{key_id}=={self.expr.rhs}'
+        return self.qasm
